@@ -31,7 +31,18 @@ pub enum Action {
     Close { id: u32 },
 }
 
-pub const CHUNKS: [&[u8]; 3] = [b"", b"xy", b"z"];
+/// long-data chunks by index: three tiny ones (all the BFS uses) and three of sizes at which an
+/// implementation's buffers may start to behave differently
+pub fn chunk_bytes(idx: u8) -> Vec<u8> {
+    match idx {
+        0 => Vec::new(),
+        1 => b"xy".to_vec(),
+        2 => b"z".to_vec(),
+        3 => (0..2000usize).map(|i| b'a' + (i % 23) as u8).collect(),
+        4 => (0..12_000usize).map(|i| b'A' + (i % 19) as u8).collect(),
+        _ => (0..70_000usize).map(|i| b'0' + (i % 7) as u8).collect(),
+    }
+}
 
 impl Action {
     pub fn short(&self) -> String {
@@ -44,7 +55,7 @@ impl Action {
                 if *null_first { ",first NULL" } else { "" },
                 if *shim_ignores { ",shim ignores params" } else { "" }
             ),
-            Action::Long { id, param, chunk } => format!("LONG_DATA(id={},param={},{:?})", id, param, String::from_utf8_lossy(CHUNKS[*chunk as usize])),
+            Action::Long { id, param, chunk } => format!("LONG_DATA(id={},param={},{})", id, param, if *chunk < 3 { format!("{:?}", String::from_utf8_lossy(&chunk_bytes(*chunk))) } else { format!("{} bytes", chunk_bytes(*chunk).len()) }),
             Action::Close { id } => format!("CLOSE(id={})", id),
         }
     }
@@ -78,7 +89,7 @@ pub fn encode(reg: &Registry, a: &Action, step: usize) -> Vec<u8> {
     match *a {
         Action::Prepare { id, n, ok } => with_byte(COM_STMT_PREPARE, format!("id={} p={}{}", id, n, if ok { "" } else { " err" }).as_bytes()),
         Action::Close { id } => cmd_close(id),
-        Action::Long { id, param, chunk } => cmd_long(id, param, CHUNKS[chunk as usize]),
+        Action::Long { id, param, chunk } => cmd_long(id, param, &chunk_bytes(chunk)),
         Action::Exec { id, bind, null_first, .. } => {
             let (n, types, long): (usize, Option<Vec<(u8, bool)>>, Vec<u16>) = match reg.stmts.get(&id) {
                 Some(s) => (s.params, s.types.clone(), s.long.keys().copied().collect()),
@@ -395,7 +406,7 @@ impl Family for Bfs {
                                 reg.route(&p);
                             }
                             let cur = reg.stmts.get(id).and_then(|s| s.long.get(param)).map(|d| d.len()).unwrap_or(0);
-                            if cur + CHUNKS[*chunk as usize].len() > self.max_long {
+                            if cur + chunk_bytes(*chunk).len() > self.max_long {
                                 continue;
                             }
                         }
@@ -524,6 +535,22 @@ pub fn scale_lifecycle() -> Vec<(String, Vec<Action>)> {
         h.push(Action::Long { id: 2, param: 0, chunk: 1 }); // closed: must end the connection
         v.push((format!("one long-lived statement next to {} prepare/execute/close cycles", k), h));
     }
+    // statements with many parameters: close, re-prepare (same or another id, fewer or more
+    // parameters) and an execution that tries to reuse types that were never bound
+    for (n1, n2) in [(9usize, 9usize), (10, 10), (12, 2), (12, 12), (40, 41), (300, 10)] {
+        for same_id in [true, false] {
+            let id2 = if same_id { 1 } else { 2 };
+            let mut h = vec![Action::Prepare { id: 1, n: n1, ok: true }, ex(1, Bind::A), ex(1, Bind::Reuse), Action::Close { id: 1 }];
+            h.push(Action::Prepare { id: id2, n: n2, ok: true });
+            h.push(ex(id2, Bind::Reuse)); // nothing bound since the prepare: must not reach the shim
+            v.push((format!("a statement of {} parameters bound, closed; {} re-prepared with {} parameters and executed without types", n1, if same_id { "the same id" } else { "another id" }, n2), h));
+            let mut h = vec![Action::Prepare { id: 1, n: n1, ok: true }, ex(1, Bind::A), Action::Close { id: 1 }];
+            h.push(Action::Prepare { id: id2, n: n2, ok: true });
+            h.push(ex(id2, Bind::C));
+            h.push(ex(id2, Bind::Reuse));
+            v.push((format!("a statement of {} parameters bound, closed; {} re-prepared with {} parameters, bound with other types, reused", n1, if same_id { "the same id" } else { "another id" }, n2), h));
+        }
+    }
     v
 }
 
@@ -575,6 +602,37 @@ pub fn scale_long_data() -> Vec<(String, Vec<Action>)> {
         h.push(ex(1, Bind::C));
         h.push(ex(1, Bind::Reuse));
         v.push((format!("long data, then {} inline executions of the same statement, then long data again", e), h));
+    }
+    // many chunks streamed alternately to several parameters of one statement
+    for (np, n) in [(2usize, 2usize), (2, 31), (2, 32), (2, 33), (2, 34), (2, 40), (2, 64), (3, 33), (3, 100), (2, 300), (3, 1000)] {
+        let mut h = vec![Action::Prepare { id: 1, n: np, ok: true }, Action::Prepare { id: 2, n: 2, ok: true }];
+        for i in 0..n {
+            h.push(Action::Long { id: 1, param: (i % np) as u16, chunk: 1 + (i % 2) as u8 });
+        }
+        h.push(ex(1, Bind::C));
+        h.push(ex(1, Bind::Reuse));
+        v.push((format!("{} chunks streamed round-robin to {} parameters, then execute twice", n, np), h));
+    }
+    // buffers of some size abandoned by CLOSE / emptied by EXECUTE, then small data again
+    for big in [3u8, 4, 5] {
+        let size = chunk_bytes(big).len();
+        let mut h = vec![Action::Prepare { id: 1, n: 2, ok: true }, Action::Long { id: 1, param: 0, chunk: big }, Action::Close { id: 1 }];
+        h.push(Action::Prepare { id: 2, n: 2, ok: true });
+        h.push(Action::Long { id: 2, param: 1, chunk: 1 });
+        h.push(ex(2, Bind::C));
+        h.push(Action::Prepare { id: 1, n: 2, ok: true });
+        h.push(Action::Long { id: 1, param: 0, chunk: 2 });
+        h.push(ex(1, Bind::C));
+        v.push((format!("{} bytes of long data abandoned by CLOSE, then small long data for a new and for the re-prepared statement", size), h));
+        let mut h = vec![Action::Prepare { id: 1, n: 2, ok: true }, Action::Prepare { id: 2, n: 2, ok: true }, Action::Long { id: 1, param: 0, chunk: big }, ex(1, Bind::C)];
+        h.push(ex(1, Bind::C));
+        h.push(ex(1, Bind::Reuse));
+        h.push(Action::Long { id: 1, param: 1, chunk: big });
+        h.push(Action::Long { id: 2, param: 1, chunk: 2 });
+        h.push(ex(1, Bind::Reuse));
+        h.push(ex(2, Bind::C));
+        h.push(ex(1, Bind::C));
+        v.push((format!("{} bytes of long data delivered, then inline executions of the same statement, then long data for the other parameter", size), h));
     }
     v
 }
